@@ -284,6 +284,12 @@ class Recorder:
             if oldsp is not None:
                 self.gone_infos[st['sid']] = (info, oldsp)
             self.ev('api', op='unreg', sid=st['sid'])
+            if st.get('fresh') and oldsp is not None:
+                # the application describes the service again instead of keeping the object it registered (the registry removes by name)
+                try:
+                    info = self.make_info(dict(oldsp, name=info.name))
+                except Exception:  # noqa: BLE001
+                    pass
             task = await aio.async_unregister_service(info)
             self.pending_tasks.append(task)
             self.ev('api_ret', op='unreg', sid=st['sid'], ok=True)
@@ -658,10 +664,20 @@ def gen_query(rng: random.Random, svcs: List[dict], focus: str) -> dict:
     legacy_p = {'c03': 0.7, 'c11': 0.35, 'c12': 0.1, 'c08': 0.15}.get(focus, 0.2)
     if rng.random() < legacy_p:
         st['port'] = rng.choice([40000, 1024, 65535, 5354])
+    two = [sp for sp in svcs if len(ADDR_SETS[sp['addrs']][0]) > 1]
+    if two and rng.random() < 0.3:
+        # a host with several addresses of one family, asked for by a querier that knows some of them: the others are answered
+        sp = rng.choice(two)
+        st['qs'] = [{'name': sp['host'], 'type': wire.T_A, 'sp': rng.randint(0, 2)}] + (st['qs'][:1] if rng.random() < 0.3 else [])
+        st['known'] = [{'rec': rec_of(sp, 'a4', rng.randint(0, 1)), 'ttl': rng.choice([sp['host_ttl'], sp['host_ttl'] // 2 + 1])}]
+        if rng.random() < 0.3:
+            st['known'] += gen_known(rng, svcs)[:1]
+            if len({json_key(k['rec']) for k in st['known']}) < len(st['known']):
+                st['known'] = st['known'][:1]
     for q in st['qs']:
         # the QU bit also on queries from other ports (a legacy resolver that sets it still gets its unicast reply)
         q['qu'] = rng.random() < ({'c11': 0.5}.get(focus, 0.2)) and ('port' not in st or rng.random() < 0.4)
-    if rng.random() < 0.5:
+    if rng.random() < 0.5 and 'known' not in st:
         st['known'] = gen_known(rng, svcs)
     if rng.random() < ({'c11': 0.2}.get(focus, 0.06)):
         sp = rng.choice(svcs)
@@ -803,7 +819,7 @@ def gen_resp(rng: random.Random, sid: str, focus: str, thorough: bool = False) -
                 steps.append({'op': 'query', 'qs': [{'name': qname, 'type': qtype, 'sp': 0, 'qu': False}], 'qid': rng.randint(1, 65535), 'src': '10.0.0.23'})
             live.remove(sp)
             busy[sp['sid']] = max(busy[sp['sid']], t + 300)
-            steps.append({'op': 'unreg', 'sid': sp['sid']})
+            steps.append({'op': 'unreg', 'sid': sp['sid'], 'fresh': rng.random() < 0.35})
             continue
         if r < p_unreg + 0.06 and [x for x in live if busy[x['sid']] <= t]:
             i = live.index(rng.choice([x for x in live if busy[x['sid']] <= t]))
@@ -1021,7 +1037,7 @@ def gen_c09(rng: random.Random, sid: str, thorough: bool = False) -> dict:
     if nconf == 0 and not expired_case and rng.random() < 0.5:
         # the application unregisters the service, somebody else takes the name, and the same ServiceInfo object is
         # registered again: it has to come up under the next free name with a complete record set of that name
-        steps.append({'op': 'unreg', 'sid': sp['sid']})
+        steps.append({'op': 'unreg', 'sid': sp['sid'], 'fresh': rng.random() < 0.35})
         end += 400
         steps += [{'op': 'at', 't': end}, {'op': 'conflict', 'svc': sp, 'k': 0, 'exact': True, 'ttl': 4500}]
         end += rng.choice([700, 1100, 2000])
